@@ -532,7 +532,7 @@ func runLocal(out *hx.Out, c conf, evs []*ev, kind string) {
 
 func main() {
 	out := hx.Flags("C36", 600)
-	out.Rule = "single events (create 35%, delete 20%, in-place update 15%, rename 25%, neither entry 5%; 1/40 with a trailing-slash directory) over directories {/,/data,/data/a,/data/a/b,/data2,/data2/a,/dat,/other,/other/data,/other/data/a} x names {a,b,x,data,data2,dat}, source dir in {/data,/data/,/,/data/a,/data/a/}, target in {/backup,/,/data,/t/u}, incremental 1/5, random UpdateEntry answer, signatures from {0,3,7,9}: 40% through genProcessFunction and 30% through Replicator.Replicate with a recording sink, 10% through the real filer.sync loop + FilerSink against in-process gRPC filers, 20% valid histories (6-14 events, 8% renames) of a simulated source namespace through genProcessFunction into a real LocalSink (final tree compared); the first cases are the fixed witnesses of the known findings and of the repaired sibling-prefix defect; non-trivial = at least one sink call / non-empty tree; distinct = canonical configuration + event(s)"
+	out.Rule = "single events (create 35%, delete 20%, in-place update 15%, rename 25%, neither entry 5%; 1/40 with a trailing-slash directory) over directories {/,/data,/data/a,/data/a/b,/data2,/data2/a,/dat,/other,/other/data,/other/data/a} x names {a,b,x,data,data2,dat}, source dir in {/data,/data/,/,/data/a,/data/a/}, target in {/backup,/,/data,/t/u}, incremental 1/5, random UpdateEntry answer, signatures from {0,3,7,9}: 40% through genProcessFunction and 30% through Replicator.Replicate with a recording sink, 10% through the real filer.sync loop + FilerSink against in-process gRPC filers, 20% valid histories (6-14 events, 8% renames) of a simulated source namespace through genProcessFunction into a real LocalSink (final tree compared); the first cases are the fixed witnesses of the known finding (Replicate) and of the repaired defects (sibling prefix, move into the subtree, LocalSink move); non-trivial = at least one sink call / non-empty tree; distinct = canonical configuration + event(s)"
 	root := hx.NewRng(out.Seed)
 	var pair *grpcPair
 
@@ -540,11 +540,11 @@ func main() {
 	base := conf{src: "/data", tgt: "/backup", sig: 7}
 	x := func() *filer_pb.Entry { return entry("x", false, 1614816000) }
 	fixed := 0
-	// finding 0: rename into the watched subtree, genProcessFunction
+	// repaired: rename into the watched subtree, genProcessFunction (was dropped by the early Directory test)
 	runRec(out, "ViaSync", base, &ev{dir: "/other", old: x(), new: x(), newParent: "/data"}, true, "fixed-")
-	// finding 1: in-place update through Replicate hands NewParentPath over unmapped
+	// finding 0: in-place update through Replicate hands NewParentPath over unmapped
 	runRec(out, "ViaReplicate", base, &ev{dir: "/data", old: x(), new: x(), newParent: "/data"}, true, "fixed-")
-	// finding 2: rename inside the subtree into a LocalSink
+	// repaired: rename inside the subtree into a LocalSink (UpdateEntry used to rewrite the old key)
 	runLocal(out, conf{src: "/data", tgt: "/t"}, []*ev{
 		{dir: "/data", new: entry("a", false, 1614816000), newParent: "/data"},
 		{dir: "/data", old: entry("a", false, 1614816000), new: entry("b", false, 1614816000), newParent: "/data", delChunks: true}}, "fixed-local")
